@@ -20,6 +20,8 @@ package unknownfields
 //@   ensures f.ID == id && f.Type == fieldType && tagsOK(f)
 //@   ensures err == nil && (fieldType == 14 || fieldType == 15) ==> istype(f.Value, []UnknownField) && (forall k int :: 0 <= k && k < len(kids(f)) ==> kidOK(kids(f)[k], f.ValType) && int(kids(f)[k].ID) == int(int16(k)))
 //@   ensures err == nil && fieldType == 13 ==> istype(f.Value, []UnknownField) && len(kids(f)) % 2 == 0 && (forall k int :: 0 <= k && 2 * k + 1 < len(kids(f)) ==> kidOK(kids(f)[2*k], f.KeyType) && kidOK(kids(f)[2*k+1], f.ValType))
+//@   ensures err == nil && (fieldType == 14 || fieldType == 15) ==> len(buf) >= 5 && f.ValType == int8(buf[0]) && len(kids(f)) == int(vs.BE32(buf, 1))
+//@   ensures err == nil && fieldType == 13 ==> len(buf) >= 6 && f.KeyType == int8(buf[0]) && f.ValType == int8(buf[1]) && len(kids(f)) == 2 * int(vs.BE32(buf, 2))
 //@   ensures err == nil && fieldType == 12 ==> istype(f.Value, []UnknownField) && (forall k int :: 0 <= k && k < len(kids(f)) ==> tagsOK(kids(f)[k]))
 //@   assigns *f
 //@   decreases len(buf)
